@@ -168,6 +168,9 @@ class FieldSpec:
     def __post_init__(self):
         if isinstance(self.aliases, str):
             self.aliases = [self.aliases]
+        if isinstance(self.in_names, str):
+            # a single name, not a sequence of one-letter names
+            self.in_names = [self.in_names]
 
     def replace_typevars(self, replacements: t.Mapping[t.Union[t.TypeVar, ParamSpec], t.Type[t.Any]]) -> Self:
         """
